@@ -290,6 +290,48 @@ pub fn count_ladder_programs(tier: crate::shard::Tier) -> Vec<(usize, Vec<Stmt>)
             }
         }
     }
+    // big results with sharing: the value the caller gets has N distinct objects and one object that occurs
+    // twice (met again only after the other N) — the caller releases every object exactly once
+    {
+        let mut ns: Vec<usize> = vec![0, 1, 2, 3, 10, 50, 200, 300, 1000, 2049, 3000, 4097];
+        ns.extend(60..=140);
+        for c in [256usize, 512, 1024] {
+            ns.extend(c - 2..=c + 2);
+        }
+        if tier != crate::shard::Tier::Quick {
+            ns.extend(141..=1100);
+            ns.extend([8193usize, 10007, 16385]);
+        }
+        ns.sort();
+        ns.dedup();
+        for n in ns {
+            for shape in 0..6 {
+                let shared = if shape % 2 == 0 { string("gedeeld") } else { array(vec![flt(1.5), string("in")]) };
+                let fill = |k: usize| -> Vec<verif::Expr> { (0..k).map(|i| if i % 3 == 2 { array(vec![flt(0.5)]) } else { string("a") }).collect() };
+                let mut elems: Vec<verif::Expr> = Vec::new();
+                match shape / 2 {
+                    0 => {
+                        elems.push(id("x"));
+                        elems.extend(fill(n));
+                        elems.push(id("x"));
+                    }
+                    1 => {
+                        elems.extend(fill(n / 2));
+                        elems.push(id("x"));
+                        elems.extend(fill(n - n / 2));
+                        elems.push(array(vec![id("x")]));
+                    }
+                    _ => {
+                        elems.push(array(vec![id("x"), string("b")]));
+                        elems.extend(fill(n));
+                        elems.push(array(vec![array(vec![id("x")])]));
+                        elems.push(id("x"));
+                    }
+                }
+                out.push((n, vec![let_("x", shared), es(array(elems))]));
+            }
+        }
+    }
     out
 }
 
